@@ -319,7 +319,7 @@ ORACLES = {"C08": oracle_c08, "C19": oracle_c19}
 # ----------------------------------------------------------------------------------
 # run / replay / minimise
 # ----------------------------------------------------------------------------------
-_STUB_NAMES = ("SimProcess", "SimQueue", "SimContext", "SimSentinel", "SimDatetime", "_FakePsutil")
+_STUB_NAMES = ("SimProcess", "SimQueue", "SimContext", "SimSentinel", "SimDatetime", "SimEvent", "SimLock", "_FakePsutil")
 
 
 def _stub_gap(out):
